@@ -52,6 +52,8 @@ def to_v(it, x):
         return ctx.lit(x)
     if isinstance(x, tuple):
         return mk_tuple(ctx, [to_v(it, e) for e in x])
+    if type(x).__name__ == "NPScalar":
+        return x.term
     if isinstance(x, Instance) and getattr(x, "href", None) is not None:
         return x.href
     raise Unsupported(f"cannot embed {x!r} into V")
@@ -563,6 +565,7 @@ def make_set_from_seq(it, s):
         return zbool(r) if not isinstance(r, bool) else z3.BoolVal(r)
     ms = MSet(it.ctx, SSet(mem))
     ms.elems = elems       # creation-time elements (used for len() of a freshly built set)
+    ms.src_seq = s2
     return ms
 
 
@@ -610,6 +613,13 @@ def py_len(it, x):
             total = add(total, 0 if dup is True else (1 if dup is False else z3.If(dup, 0, 1)))
             seen.append(e)
         return total
+    if isinstance(x, MSet) and getattr(x, "src_seq", None) is not None and x.src_seq.sort is not None:
+        from .models_np import stat_term
+        from .core import intof
+        n = intof(stat_term(it, "count_distinct", x.src_seq))
+        it.ctx.assume(z3.And(n >= 0, n <= zint(x.src_seq.len)))
+        it.ctx.used_models.add("len(set(seq)): the number of distinct elements (uninterpreted) - assumed")
+        return n
     if isinstance(x, GenValue):
         raise PyRaise("TypeError", "len of generator")
     if hasattr(x, "pyvc_len"):
@@ -814,6 +824,8 @@ def value_getattr(it, obj, name):
     if isinstance(obj, SuperProxy):
         return super_getattr(it, obj, name)
     table = None
+    if is_v(obj) and name == "item" and getattr(it, "np_scalars", False):
+        raise PyRaise("AttributeError", "'str' object has no attribute 'item'")      # a plain Python object, not a NumPy scalar
     if is_v(obj) or isinstance(obj, (SMap, dict)):
         table = DICT_METHODS
         if is_v(obj) and name not in table:
@@ -1584,6 +1596,8 @@ def _print(it, args, kwargs):
 
 def _hasattr(it, args, kwargs):
     obj, name = args
+    if type(obj).__name__ == "NPScalar" and name == "item":
+        return obj.has_item()
     try:
         it.getattr(obj, name)
         return True
